@@ -21,10 +21,10 @@ import (
 
 type replayEntry struct {
 	Template string   `json:"template"`
-	Pkg      string   `json:"pkg"`                // directory relative to repo root
-	Kinds    []string `json:"kinds,omitempty"`    // obligation kinds this template can replay (default: post, pre)
-	Match    string   `json:"match,omitempty"`    // substring the obligation name must contain
-	Package  string   `json:"package,omitempty"`  // Go package name (default: last dir element)
+	Pkg      string   `json:"pkg"`               // directory relative to repo root
+	Kinds    []string `json:"kinds,omitempty"`   // obligation kinds this template can replay (default: post, pre)
+	Match    string   `json:"match,omitempty"`   // substring the obligation name must contain
+	Package  string   `json:"package,omitempty"` // Go package name (default: last dir element)
 	Race     bool     `json:"race,omitempty"`
 	NoInputs bool     `json:"noinputs,omitempty"` // the replay needs no counterexample values
 	Pattern  string   `json:"pattern,omitempty"`  // further output substrings ("a|b") that mean "reproduced" (fatal errors cannot be recovered in the test)
